@@ -2,6 +2,7 @@ package main
 
 import (
 	"fmt"
+	"go/token"
 	"go/types"
 	"sort"
 	"strings"
@@ -96,6 +97,16 @@ func taintOf(P *Program, v ssa.Value, depth int) map[string]ssa.Value {
 			out[s] = v
 			// keep walking: a token field of a stored object is itself the source
 		}
+		// a field of a struct built in this function that is stored exactly once (before the load): the load
+		// yields that value — the other fields of the object do not flow here
+		if ld, isL := v.(*ssa.UnOp); isL && ld.Op == token.MUL {
+			if fa, isFA := ld.X.(*ssa.FieldAddr); isFA {
+				if sv := uniqueFieldStore(fa, ld); sv != nil {
+					walk(sv, d)
+					return
+				}
+			}
+		}
 		ins, ok := v.(ssa.Instruction)
 		if !ok {
 			if p, isP := v.(*ssa.Parameter); isP && d > 0 {
@@ -188,6 +199,14 @@ func taintOf(P *Program, v ssa.Value, depth int) map[string]ssa.Value {
 		switch x := v.(type) {
 		case *ssa.UnOp:
 			if x.Op.String() == "*" {
+				// a field of a struct built in this function that is stored exactly once (before the load): the
+				// load yields that value — the other fields of the object do not flow here
+				if fa, isFA := x.X.(*ssa.FieldAddr); isFA {
+					if sv := uniqueFieldStore(fa, x); sv != nil {
+						walk(sv, d)
+						return
+					}
+				}
 				root = addrRoot(x.X)
 			}
 		case *ssa.Slice:
